@@ -21,6 +21,9 @@ type Header struct {
 	// Whole packet length (fixed header + variable part).
 	pktLength uint16
 	pktType   PacketType
+	// The header was received in the 3-byte length form. That form is legal
+	// for any packet length, not only for packets longer than 255B.
+	longForm bool
 }
 
 func NewHeader(pktType PacketType, varPartLength uint16) *Header {
@@ -39,6 +42,7 @@ func (h *Header) PacketType() PacketType {
 //
 // See MQTT-SN specification v. 1.2, chapter 5.2 General Message Format.
 func (h *Header) SetVarPartLength(length uint16) {
+	h.longForm = false
 	if length+shortHeaderLength <= 255 {
 		h.pktLength = length + shortHeaderLength
 	} else {
@@ -64,7 +68,7 @@ func (h *Header) PacketLength() uint16 {
 //
 // See MQTT-SN specification v. 1.2, chapter 5.2 General Message Format.
 func (h *Header) HeaderLength() uint16 {
-	if h.pktLength <= 255 {
+	if h.pktLength <= 255 && !h.longForm {
 		return shortHeaderLength
 	} else {
 		return longHeaderLength
@@ -85,10 +89,12 @@ func (h *Header) Unpack(buf []byte) error {
 		}
 		h.pktLength = binary.BigEndian.Uint16(buf[1:3])
 		h.pktType = PacketType(buf[3])
+		h.longForm = true
 	} else {
 		// Short packet (<=255B)
 		h.pktLength = uint16(lengthByte)
 		h.pktType = PacketType(buf[1])
+		h.longForm = false
 	}
 
 	return nil
